@@ -101,6 +101,8 @@ func (x *Exec) execInstr(st *State, ins ssa.Instruction) {
 		x.mapInitEmpty(st, mt, r)
 		st.regs[i] = scalar(i.Type(), r)
 	case *ssa.MakeChan:
+		// contracts can speak about the capacity: `before call builtin makechan(n): assert n >= 1`
+		x.pseudoBefore(st, ins, "builtin makechan", []Value{x.operand(st, i.Size)})
 		st.regs[i] = scalar(i.Type(), x.allocRef(st, "chan"))
 	case *ssa.MakeClosure:
 		r := x.allocRef(st, "closure")
@@ -151,6 +153,9 @@ func (x *Exec) execInstr(st *State, ins ssa.Instruction) {
 		x.evalCallArgs(st, i.Common())
 	case *ssa.Send:
 		x.note("channel send modelled as no-op: " + x.funcName())
+		// ... but contracts can count sends: `on call builtin send(ch, v) ret (): sent = sent + 1`
+		x.pseudoBefore(st, ins, "builtin send", []Value{x.operand(st, i.Chan), x.operand(st, i.X)})
+		x.pseudoOn(st, ins, "builtin send", []Value{x.operand(st, i.Chan), x.operand(st, i.X)})
 	case *ssa.DebugRef:
 	default:
 		panic(unsupported{fmt.Sprintf("UNSUPPORTED instruction %T (%s) in %s", ins, ins, x.funcName())})
@@ -1130,5 +1135,57 @@ func (x *Exec) strCmp(l, r Term) (Term, []Term) {
 		mkEq(mkEq(c, tZero), mkEq(l, r)),
 		mkEq(mkCmp("<", c, tZero), mkCmp(">", rc, tZero)),
 		mkEq(mkCmp(">", c, tZero), mkCmp("<", rc, tZero)),
+	}
+}
+
+// pseudoBefore / pseudoOn run the `before call` / `on call` clauses of the contract for an instruction that is not a
+// call (make(chan), channel send) under a builtin-like name.
+func (x *Exec) pseudoBefore(st *State, ins ssa.Instruction, name string, args []Value) {
+	for _, ev := range x.ctrEvents() {
+		if ev.Kind != "before" || !patMatch(ev.Pattern, []string{name}) {
+			continue
+		}
+		env := x.newEnv(st)
+		env.spos = ins.Pos()
+		x.bindEventArgs(env, ev, args, nil)
+		for k, cl := range ev.Asserts {
+			t, err := env.evalBool(cl.Expr)
+			if err != nil {
+				panic(fmt.Sprintf("%s:%d: before call: %v", cl.File, cl.Line, err))
+			}
+			label := cl.Label
+			if label == "" {
+				label = fmt.Sprintf("%s#%d.%d", ev.Pattern, ev.Ordinal, k)
+			}
+			x.oblige(st, "before", label, t, ins.Pos(), cl.Expr)
+		}
+	}
+}
+
+func (x *Exec) pseudoOn(st *State, ins ssa.Instruction, name string, args []Value) {
+	for _, ev := range x.ctrEvents() {
+		if ev.Kind != "on" || !patMatch(ev.Pattern, []string{name}) {
+			continue
+		}
+		env := x.newEnv(st)
+		env.spos = ins.Pos()
+		x.bindEventArgs(env, ev, args, nil)
+		for _, stmt := range ev.Stmts {
+			if stmt.IsAssume || stmt.IsAssert {
+				continue
+			}
+			old, ok := st.ghost[stmt.A.Var]
+			if !ok {
+				panic(fmt.Sprintf("%s: event assigns undeclared ghost %q", x.funcName(), stmt.A.Var))
+			}
+			v, err := env.evalString(stmt.A.Expr)
+			if err != nil {
+				panic(fmt.Sprintf("on %s: %v", name, err))
+			}
+			st.ghost[stmt.A.Var] = coerce(v, old.T)
+			env = x.newEnv(st)
+			env.spos = ins.Pos()
+			x.bindEventArgs(env, ev, args, nil)
+		}
 	}
 }
